@@ -96,6 +96,8 @@ pub fn process_file(
         return Err(ErrorLoc::new(prog.loc(), err));
     }
 
+    prog.flush()?;
+
     Ok(())
 }
 
